@@ -32,6 +32,8 @@ pub struct Cfg {
     /// negatives): every lookup reaches the data blocks, so the block-search paths that a Bloom
     /// filter hides for 99% of the absent keys are exercised
     pub permissive_filter: bool,
+    /// block cache with room for two blocks only: every read evicts
+    pub tiny_block_cache: bool,
 }
 
 impl Cfg {
@@ -43,7 +45,12 @@ impl Cfg {
             reuse,
             level_limit: 0,
             permissive_filter: false,
+            tiny_block_cache: false,
         }
+    }
+    pub const fn with_tiny_block_cache(mut self) -> Self {
+        self.tiny_block_cache = true;
+        self
     }
     pub const fn with_permissive_filter(mut self) -> Self {
         self.permissive_filter = true;
@@ -62,6 +69,7 @@ impl Cfg {
             if self.reuse { "reuse" } else { "noreuse" },
             if self.level_limit > 0 { format!("_levels{}", self.level_limit) } else { String::new() }
         ) + if self.permissive_filter { "_filterAlwaysTrue" } else { "" }
+            + if self.tiny_block_cache { "_blockcache2" } else { "" }
     }
     pub fn parse(s: &str) -> Option<Cfg> {
         // T1 | T300 | M2 | D, optional suffix "n" = reuse_log_files false
@@ -84,6 +92,8 @@ impl Cfg {
             // one entry per block / per file, every lookup passes the filter
             "T300p" => Cfg::new(4 << 20, 300, 1, reuse).with_permissive_filter(),
             "T1p" => Cfg::new(4 << 20, 1, 1, reuse).with_permissive_filter(),
+            // two-entry block cache (the smallest RainDB accepts), one entry per block
+            "T300c" => Cfg::new(4 << 20, 300, 1, reuse).with_tiny_block_cache(),
             _ => return None,
         })
     }
@@ -298,7 +308,7 @@ pub fn db_options(fs: &VerifFs, cfg: &Cfg) -> DbOptions {
         max_block_size: cfg.block,
         filesystem_provider: Arc::new(fs.clone()) as Arc<dyn FileSystem>,
         filter_policy: if cfg.permissive_filter { Arc::new(AlwaysMayMatch) } else { Arc::new(raindb::BloomFilterPolicy::new(10)) },
-        block_cache: raindb::verif::block_cache(4096),
+        block_cache: raindb::verif::block_cache(if cfg.tiny_block_cache { 2 } else { 4096 }),
         create_if_missing: true,
         error_if_exists: false,
         reuse_log_files: cfg.reuse,
